@@ -400,4 +400,12 @@ def corpus():
                      ["revokeGrant", 0], ["userinfo", 2], ["introspect", "client_1", 2]]},
             {"t": "hist", "oidc": True, "jwt": True,
              "ops": [["authorize", "diana", "client_1", ["openid", "offline_access"], red], ["tokenParse", "client_1", 1, red], ["tokenProcess", 0],
-                     ["revokeClient", "diana", "client_1"], ["userinfo", 2], ["refresh", "client_1", 3, None]]}]
+                     ["revokeClient", "diana", "client_1"], ["userinfo", 2], ["refresh", "client_1", 3, None]]}] + [
+            # single tokens revoked while their grant lives on (revocation endpoint, non-recursive revocation, replayed code), then an
+            # export / import, then the dead tokens again
+            {"t": "hist", "oidc": True, "jwt": jwt,
+             "ops": [["authorize", "diana", "client_1", ["openid", "offline_access"], red], ["tokenParse", "client_1", 1, red], ["tokenProcess", 0],
+                     ["refresh", "client_1", 3, None], ["revokeTok", 2, False], ["revokeEp", "client_1", 3], ["restore", mode], ["userinfo", 2], ["introspect", "client_1", 2],
+                     ["introspect", "client_1", 3], ["refresh", "client_1", 3, None], ["userinfo", 5], ["tokenParse", "client_1", 1, red], ["restore", mode],
+                     ["userinfo", 5], ["introspect", "client_1", 6], ["refresh", "client_1", 6, None]]}
+            for mode, jwt in (("ctx", False), ("ctx-json", True), ("sm", False))]
